@@ -9,7 +9,9 @@
    reassemble   : what an IRCv3 server does with the AUTHENTICATE parameters it receives
      (sasl-3.1: "the response is split into chunks of 400 bytes; a chunk shorter than 400
      bytes, or '+' for the empty chunk, ends the response"). *)
-Require Import Bytes Base64 Sasl.
+Require Import Bytes Base64 CapLib.
+Require Cap CapSpec.
+Require Import Sasl.
 
 Inductive chunked : str -> list chunk -> Prop :=
 | ch_short r : (0 < length r < 400)%nat -> chunked r [Payload r]
@@ -116,4 +118,36 @@ Record cfg_low_eq (c1 c2 : config) : Prop := mkLowEq {
   le_track : cfg_tracking c1 = cfg_tracking c2;
   le_nick : cfg_nick c1 = cfg_nick c2;
   le_user : cfg_user c1 = cfg_user c2;
-  le_name : cfg_name c1 = cfg_name c2 }.
+  le_name : cfg_name c1 = cfg_name c2;
+  le_ord : cfg_ord c1 = cfg_ord c2 }.
+
+(* ---- CAP lines while the SASL exchange is running -------------------------------
+   The server may send CAP lines between AUTHENTICATE <mech> and 903: capabilities
+   acknowledged on separate lines, cap-notify NEW / DEL, a repeated LS, a NAK.
+   (Reply patterns is_nak / is_del / is_final_ls / is_ack and cap_tokens / cap_token_name are
+   Spec/CapSpec.v's reading of the IRCv3 grammar.) *)
+Definition cap_event (e : event) : Prop := ev_echo e = false /\ ev_cmd e = c_CAP.
+
+(* authentication can be running only while the server's acknowledgement of sasl stands *)
+Definition sasl_enabled (ns : nstate) : Prop := amem c_sasl (Cap.st_enabled ns) = true.
+
+(* a name the client of this model asks for when it is advertised *)
+Definition requestable (k : str) : Prop := In k Cap.builtin_caps \/ k = c_sasl.
+
+(* The CAP lines that must NOT end the negotiation while sasl is acknowledged: everything
+   except a NAK, a DEL or ACK that takes sasl away ("-sasl"), and a final LS/NEW that
+   advertises nothing the client asks for.  What the excepted lines do is stated exactly
+   in Properties/C09.v C09_cap_end_iff. *)
+Definition cap_quiet (ps : list str) : Prop :=
+  CapSpec.is_nak ps = false /\
+  (CapSpec.is_del ps = true ->
+     ~ In c_sasl (List.map CapSpec.cap_token_name (CapSpec.cap_tokens ps))) /\
+  (CapSpec.is_final_ls ps = true ->
+     exists k, In k (List.map CapSpec.cap_token_name (CapSpec.cap_tokens ps)) /\ requestable k) /\
+  (CapSpec.is_ack ps = true -> ~ In (45 :: c_sasl) (CapSpec.cap_tokens ps)).
+
+(* the alphabet of the fail-closed theorems extended by CAP lines *)
+Definition in_alphabet_cap (e : event) : Prop :=
+  in_alphabet e \/ (cap_event e /\ cap_quiet (ev_params e)).      (* for "no CAP END" *)
+Definition in_alphabet_anycap (e : event) : Prop :=
+  in_alphabet e \/ cap_event e.                                   (* for "error iff fatal" *)
